@@ -42,7 +42,7 @@ REQUIRED = [
 MIN_COUNTERS = {"requests": 3000, "cache_hits": 500, "cache_misses": 500, "reloads_after_edit": 50, "evictions": 50, "namespaced_requests": 300, "gathered_requests": 50, "requests_via_tag": 300, "namespace_via_tag_context": 100, "deletions": 50}
 ASSUMPTIONS = [
     "edits change the content of an existing source or delete it; no new shadowing entries are added (in particular a deleted source is not re-created: no caching loader can notice a new file that shadows the one it cached)",
-    "file edits bump the mtime explicitly by one second per edit, so no wall-clock sleeping is needed",
+    "file edits set the mtime explicitly (forwards by a second or a day, or backwards by a second or an hour: a changed file need not be newer), so no wall-clock sleeping is needed",
 ]
 
 NAMES = ["t1", "t2", "t3"]
@@ -102,8 +102,9 @@ KINDS = ["dict", "nsdict", "choice", "fs", "nsfs"]
 class Store:
     """The single store both loaders read: a dict (or two dicts for choice) or a directory."""
 
-    def __init__(self, kind: str, initial: dict[str, str]):
+    def __init__(self, kind: str, initial: dict[str, str], mtime_step: int = 1):
         self.kind = kind
+        self.mtime_step = mtime_step  # an edited file may carry an *older* modification time (a restored backup, cp -p, rsync -t)
         self.version: dict[str, int] = {k: 0 for k in initial}
         self.tmpdir = None
         self.mtime = 1_600_000_000
@@ -122,7 +123,7 @@ class Store:
         os.makedirs(os.path.dirname(p), exist_ok=True)
         with open(p, "w", encoding="utf-8") as fd:
             fd.write(text)
-        self.mtime += 1
+        self.mtime += self.mtime_step
         os.utime(p, (self.mtime, self.mtime))
 
     def edit(self, key: str, text: str) -> None:
@@ -251,7 +252,7 @@ async def _gather(env: Environment, reqs: list[dict[str, Any]]):
 
 def judge(ctx: core.Ctx, case: dict[str, Any]) -> None:
     kind = case["kind"]
-    store = Store(kind, {k: text_of(k, 0) for k in case["keys"]})
+    store = Store(kind, {k: text_of(k, 0) for k in case["keys"]}, case.get("mtime_step", 1))
     try:
         caching, plain = store.loaders(case["auto_reload"], case["capacity"])
         eg = {"eg": "EG"} if case.get("env_globals", True) else None
@@ -419,7 +420,8 @@ def gen_case(rng, thorough: bool) -> dict[str, Any]:
             steps.append({"op": "gather", "reqs": [dict(gen_req(rng, gid, namespaced), **{"async": True}) for _ in range(rng.randint(2, 5))]})
         else:
             steps.append(gen_req(rng, gid, namespaced))
-    return {"kind": kind, "keys": keys, "auto_reload": rng.random() < 0.7, "capacity": rng.randint(1, 4), "env_globals": rng.random() < 0.5, "steps": steps}
+    return {"kind": kind, "keys": keys, "auto_reload": rng.random() < 0.7, "capacity": rng.randint(1, 4), "env_globals": rng.random() < 0.5, "steps": steps,
+            "mtime_step": rng.choice([1, 1, -1, -3600, 86400])}
 
 
 def cases(ctx: core.Ctx):
